@@ -624,6 +624,49 @@ def evaluate(ctx, console, table, avail, widths, lines, padded, spec, text_cells
             finding = ratio_zero_finding(True)
         ctx.check(ok, "table_expand_exact", spec,
                   f"expanding table is {table_width} cells wide, asked for {max_width + extra} (widths {widths}, natural {first})", finding=finding)
+    # --- table_expand_exact for EVERY kind of column (min_width, no_wrap, fixed width, max_width; no active ratio): theorems
+    #     table_expand_exact_no_wrap / _above_floors.  The structural minimum here is the one the theorems name: the natural (first
+    #     pass) widths of the columns that may not shrink + one cell per column that may; the `min_width + padding` floors are
+    #     compared with what the REAL `Table._collapse_widths` leaves of the natural widths (not with the model).
+    if table.expand and ratio_ok and not flexible and all(p >= 0 for p in table.padding) and all(
+            (c.width is None or c.width >= 0) and (c.max_width is None or c.max_width >= 0) for c in table.columns):
+        wrapable = [c.width is None and not c.no_wrap for c in table.columns]
+        # a column's own max_width cap is applied after its min_width (Measurement.clamp), so it bounds the floor
+        floors = [(max(0, c.min_width + table._get_padding_width(i)) if c.max_width is None
+                   else max(0, min(c.min_width, c.max_width) + table._get_padding_width(i)))
+                  if (c.width is None and c.min_width is not None) else 0
+                  for i, c in enumerate(table.columns)]
+        budget = sum(1 if wr else f for f, wr in zip(first, wrapable))
+        budget_floors = sum(max(1, fl_) if wr else f for f, wr, fl_ in zip(first, wrapable, floors))
+        if max_width >= budget:
+            if sum(first) <= max_width:
+                above = True
+            else:
+                try:
+                    collapsed = list(type(table)._collapse_widths(list(first), wrapable, max_width))
+                except BaseException as e:   # noqa: BLE001 - judged, not a harness error
+                    collapsed = None
+                    ctx.check(False, "expand_exact_columns", spec, f"_collapse_widths raised {type(e).__name__}")
+                above = collapsed is not None and all(w >= f for w, f in zip(collapsed, floors))
+            kinds = "+".join(k for k, on in (("no_wrap", any(c.no_wrap for c in table.columns)), ("min_width", any(floors)),
+                                             ("width", any(c.width is not None for c in table.columns)),
+                                             ("max_width", any(c.max_width is not None for c in table.columns))) if on) or "free"
+            if above:
+                ctx.note("table:expand_exact_columns:" + kinds + (":collapsed" if sum(first) > max_width else ":fits"))
+                ctx.check(sum(widths) == max_width and all(w >= 1 for w in widths), "expand_exact_columns", spec,
+                          f"expanding table ({kinds} columns) is {table_width} cells wide, asked for {max_width + extra} "
+                          f"(widths {widths}, natural {first}, structural minimum {budget + extra})")
+            elif max_width >= budget_floors:
+                # the collapse went below a column's min_width floor: the statement still asks for exactness (the floors fit)
+                ok = sum(widths) == max_width
+                finding = None
+                if not ok and sum(widths) > max_width and any(f and w == f for w, f in zip(widths, floors)):
+                    # narrow classifier: too wide, and some min_width column sits exactly on its floor (put back by the re-measure)
+                    finding = "table-column-min-width-overflow"
+                ctx.note("table:expand_exact_columns:below-floor:" + ("exact" if ok else "too-wide" if sum(widths) > max_width else "short"))
+                ctx.check(ok, "expand_exact_min_width_column", spec,
+                          f"expanding table with a min_width column is {table_width} cells wide, asked for {max_width + extra} "
+                          f"(widths {widths}, natural {first}, floors {floors}; {budget_floors + extra} would do)", finding=finding)
     # --- width_fits
     if in_domain and all_wrappable(table) and no_col_min and max_width >= ncols:
         ok = sum(widths) <= max_width
